@@ -126,11 +126,11 @@ def interval(f: float, den, rel_ulps: float = 64.0, mag: float | None = None, ti
     real interval (sound for testing membership of an integer; empty, a > b, when no integer fits)."""
     m = max(abs(float(f)), float(mag) if mag is not None else 0.0, 1e-300)
     delta = Fraction(rel_ulps) * Fraction(1, 2 ** 53) * Fraction(m)
-    lo = (Fraction(float(f)) - delta) * den
-    hi = (Fraction(float(f)) + delta) * den
     den = Fraction(den)
     lo = (Fraction(float(f)) - delta) * den
     hi = (Fraction(float(f)) + delta) * den
+    if lo > hi:
+        lo, hi = hi, lo
     a, b = (math.ceil(lo), math.floor(hi)) if tight else (math.floor(lo), math.ceil(hi))
     if abs(a) >= LIMIT or abs(b) >= LIMIT:
         raise DriverError(f"interval for {f}*{den} exceeds the 32-bit budget")
